@@ -288,14 +288,14 @@ Definition fromkeys (ks : list key) : list key := fromkeys_acc [] ks.
 Fixpoint insert_by {A} (x : Z * A) (l : list (Z * A)) : list (Z * A) :=
   match l with
   | [] => [x]
-  | y :: r => if fst y <=? fst x then y :: insert_by x r else x :: l
+  | y :: r => if fst y <? fst x then y :: insert_by x r else x :: l
   end.
 Fixpoint isort {A} (l : list (Z * A)) : list (Z * A) :=
   match l with
   | [] => []
   | x :: r => insert_by x (isort r)
   end.
-(* insertion from the right keeps equal keys in input order *)
+(* x is inserted in front of the first element that is not smaller: equal keys keep their input order (stable) *)
 Definition sort_by_int {A} (l : list (Z * A)) : list (Z * A) := isort l.
 
 Fixpoint mapM {A B} (f : A -> option B) (l : list A) : option (list B) :=
@@ -317,10 +317,21 @@ Definition populate (e : entry) (vals : list (token * obj)) : option obj :=
       end
   | EDict ord keys =>
       let dec := map (fun tv => (decode (fst tv), snd tv)) vals in
-      Some (ODict ord (flat_map (fun k => match assoc_str (key_str k) dec with
+      (* {_decode(k): v for k, v in values.items()} : for equal decoded tokens the last one wins *)
+      Some (ODict ord (flat_map (fun k => match assoc_str (key_str k) (List.rev dec) with
                                           | Some v => [(k, v)]
                                           | None => []              (* del container[key] *)
                                           end) (fromkeys keys)))
+  end.
+
+(* the None that dict.fromkeys puts under every key *)
+Definition py_none : obj := Leaf (-1).
+
+(* _entry_to_container *)
+Definition init_container (e : entry) : obj :=
+  match e with
+  | EList => OList []
+  | EDict ord keys => ODict ord (map (fun k => (k, py_none)) (fromkeys keys))
   end.
 
 (* the container at path P (whose entry is e), fully populated; containers are built before leaves are
@@ -332,7 +343,13 @@ Fixpoint build (fuel : nat) (m : manifest) (lm : leafmap) (P : path) (e : entry)
       match mapM (fun te => option_map (fun o => (fst te, o)) (build f m lm (P ++ [fst te]) (snd te)))
                  (children m P) with
       | None => None
-      | Some vc => populate e (vc ++ children lm P)
+      | Some vc =>
+          (* _populate_container runs only for containers that received at least one child; a container without
+             any child stays as _entry_to_container made it: [] or dict.fromkeys(keys) (every value None) *)
+          match vc ++ children lm P with
+          | [] => Some (init_container e)
+          | vals => populate e vals
+          end
       end
   end.
 
